@@ -45,6 +45,8 @@ def gen_config(rng, tier, profile):
     s['MAX_CREATES_PER_MINUTE'] = rng.choice([float('inf'), float('inf'), 1, 2, 10, 60])
     if rng.random() < 0.4:
       s['MAX_UPDATES_PER_SECOND_ON_SHUTDOWN'] = rng.choice([1, 10, 1000])
+    if profile == 'c20' and rng.random() < 0.25:
+      s['MAX_UPDATES_PER_SECOND_ON_SHUTDOWN'] = 1       # a gentle shutdown: slower than normal operation
     if profile == 'c20':
       s['MAX_UPDATES_PER_SECOND'] = rng.choice([1, 2, 3, 5, 10])
       s['MAX_CREATES_PER_MINUTE'] = rng.choice([1, 2, 6, 30, 60])
@@ -205,6 +207,15 @@ def gen_plan(rng, cfg, tier, profile):
     ops.append(['stop'])
     for _ in range(k):
       ops.append(['send', rng.randrange(4), gen_dps(rng, rng.choice([1, 2, 3, 5]), counter, names)])
+  elif profile == 'c20' and rng.random() < 0.3:
+    # the stop arrives with a backlog: the writer's bucket is used up by a first burst, a
+    # second burst is still cached when the limits are switched to the shutdown values
+    many = ['b%d' % i for i in range(rng.randint(4, 9))]
+    for rnd in range(2):
+      ops.append(['send', rng.randrange(4), [(m, rng.choice(TS), float(rnd * 100 + i)) for i, m in enumerate(many)]])
+      ops.append(['sleep', rng.choice([0.0, 0.05, 0.5, 1.0])])
+    ops.append(['send', rng.randrange(4), [(m, 999999.0, float(300 + i)) for i, m in enumerate(many)]])
+    ops.append(['stop'])
   elif profile in ('c03', 'c20') and rng.random() < 0.3:
     plan['stop_at_end'] = True
   plan['ops'] = ops
